@@ -227,10 +227,18 @@ def check_escape_function(ctx: Ctx, modes: List[str], rule: str, strict_other: b
     ctx.require(len(params) >= 2, "html_escape no longer takes (text, attr)")
     # E6: default of the mode parameter
     d = fn.args.defaults
+    pos_defaults = dict(zip([a.arg for a in fn.args.args][::-1], d[::-1]))
     try:
-        dflt = prog.fold(d[-1], prog.util()) if d else None
+        dflt = prog.fold(pos_defaults[params[1]], prog.util()) if params[1] in pos_defaults else None
     except Exception:
         dflt = "<unfoldable>"
+    # E7: the function answers from its arguments alone, not from a table of earlier answers
+    from . import nondet
+    memo = nondet.cache_decorators(nondet.FnInfo(prog.util(), "html_escape", fn, None))
+    ctx.check(not memo, f"{rule}.E7", "html_escape is not memoised", ESC, f"@{memo[0]}" if memo else "no cache decorator",
+              f"html_escape is memoised (@{memo[0] if memo else ''}): the answer for one call is served to another whose arguments compare equal as cache keys "
+              f"(a key that leaves out the mode, `HTML('x') == 'x'`), so the mode or the marking of an earlier call decides what is written",
+              witness="html_escape('\"'); div(title='\"')")
     ctx.check(dflt is False, f"{rule}.E6", "html_escape's attr parameter defaults to False (text mode)", ESC,
               f"default {params[1]}={dflt!r}", "the exported html_escape() no longer escapes in text mode by default")
     for mode in modes:
@@ -251,6 +259,13 @@ def check_escape_function(ctx: Ctx, modes: List[str], rule: str, strict_other: b
             inp = leaf.run.__dict__["input_text"]
             if leaf.kind == "raise":
                 ctx.fail(f"{rule}.E4", ESC, f"raise on a path ({mode} mode)", f"html_escape raises {short(leaf.value)} for some strings in {mode} mode")
+                continue
+            if any(_is_input_truth(a, inp) and not val for a, val in leaf.atoms):
+                # the path of the empty string: it has to come back as the empty string
+                v0 = leaf.value
+                empty_back = v0 is inp or v0 == "" or (isinstance(v0, SStr) and v0.is_const() and v0.const() == "")
+                ctx.check(bool(empty_back), f"{rule}.E4", f"the empty string is returned as it is ({mode} mode)", ESC, f"'' -> {short(v0)}",
+                          f"html_escape maps the empty string to {short(v0)} in {mode} mode")
                 continue
             steps, why = _unwind(leaf.value, inp, I)
             greads = [e for e in leaf.effects if e.kind == "global_read"]
@@ -360,10 +375,16 @@ def _mentions_bool(key: Any) -> bool:
     return False
 
 
+def _is_input_truth(atom: Any, inp: SObj) -> bool:
+    return isinstance(atom, tuple) and len(atom) >= 2 and atom[0] in ("truthy", "nonempty", "truthy-kind") and atom[1] == inp.uid
+
+
 def _guards(leaf: Leaf, inp: SObj) -> Optional[List[Tuple[str, str, int, Any]]]:
     """The path's assumptions as regex tests on the input; None if some assumption is not understood."""
     out: List[Tuple[str, str, int, Any]] = []
     for atom, val in leaf.atoms:
+        if _is_input_truth(atom, inp):
+            continue        # `if not text: return ""` - says nothing about which characters a non-empty text holds
         if isinstance(atom, tuple) and atom and atom[0] == "extcall" and atom[1] in ("re.search", "re.match", "re.fullmatch"):
             idx = atom[3] - 1
             eff = leaf.effects[idx] if 0 <= idx < len(leaf.effects) else None
